@@ -1,5 +1,5 @@
 CONSTANTS MaxSyms = 6 Pairs = FALSE Emit = FALSE
 INIT Init
 NEXT Next
-INVARIANT Guards
+INVARIANT Guards GuardsV
 CHECK_DEADLOCK FALSE
